@@ -1,6 +1,7 @@
 package main
 
 import (
+	"go/constant"
 	"fmt"
 	"go/ast"
 	"go/token"
@@ -217,7 +218,7 @@ func runC19R4(c *Ctx, r *Rep) {
 		if !ok || len(as.Lhs) != 2 || len(as.Rhs) != 1 || okObj != nil {
 			return true
 		}
-		if ix, ok := unparen(as.Rhs[0]).(*ast.IndexExpr); ok && exprStr(ix.Index) == `"__all__"` {
+		if ix, ok := unparen(as.Rhs[0]).(*ast.IndexExpr); ok && strConstIs(info, ix.Index, "__all__") {
 			if id, ok := as.Lhs[1].(*ast.Ident); ok {
 				okObj = info.Defs[id]
 				if okObj == nil {
@@ -384,4 +385,10 @@ func init() {
 	register(&Rule{ID: "C19.R6", Prop: "C19", Floor: 1,
 		Doc: "a module's code runs in the module's own dictionary (globals and locals are the Globals of the module just created) and that dictionary is not replaced afterwards, so every importer — also one inside an import cycle — sees what the body defines",
 		Run: runC19R6})
+}
+
+// strConstIs: the expression is a string constant (a literal or a named constant) with the given value.
+func strConstIs(info *types.Info, e ast.Expr, want string) bool {
+	tv, ok := info.Types[e]
+	return ok && tv.Value != nil && tv.Value.Kind() == constant.String && constant.StringVal(tv.Value) == want
 }
